@@ -44,7 +44,7 @@ func main() {
 	res := NewResult(prop, *tier, *seed)
 	run(res, NewRNG(*seed), *tier, *out)
 	res.Write(*out)
-	fmt.Printf("harness %s: %d evaluations, %d distinct non-trivial, %d model cases, %d oracle violations\n",
+	fmt.Printf("\nharness %s: %d evaluations, %d distinct non-trivial, %d model cases, %d oracle violations\n",
 		prop, res.Evaluations, res.DistinctNontrivial, res.ModelCases, len(res.Violations))
 }
 
